@@ -794,7 +794,10 @@ fn kind_docs() -> Vec<T> {
     v.push(dur("i1", "i2000000001"));
     v.push(dur("i18446744073709551615", "i1000000000"));
     v.push(dur("i18446744073709551615", "i999999999"));
+    v.push(dur("i1", "i4294967295"));
     v.push(dur("i1", "i4294967296"));
+    v.push(dur("i0", "i1000000000"));
+    v.push(dur("i18446744073709551614", "i1999999999"));
     v.push(dur("i-1", "i0"));
     v.push(dur(&shex("1"), "i0"));
     v.push(T("o".into(), vec![leaf(shex("secs")), leaf("i1")]));
